@@ -156,9 +156,11 @@ def same(a, b, nm, pe):
         csc = max(sc, abs(a.r_values[n]))
         # fluctuations are stored as such (plus the offset of the replica mean): they come back on their own scale
         dsc = max(np.max(np.abs(a.deltas[n])), abs(a.r_values[n] - a.value))
-        if not np.all(np.abs(a.deltas[n] - b.deltas[m]) <= 1e-13 * dsc + 1e-300):
+        # (the reader rebuilds the samples value + fluctuation and subtracts their mean again: rounding units of the samples remain)
+        if not np.all(np.abs(a.deltas[n] - b.deltas[m]) <= 1e-13 * dsc + 2e-15 * abs(a.r_values[n]) + 1e-300):
             return 'fluctuations of %s differ by %g' % (n, np.max(np.abs(a.deltas[n] - b.deltas[m])))
-        if not abs(a.r_values[n] - b.r_values[m]) <= 1e-13 * csc:
+        # the replica mean is value + mean of the stored column: a few rounding units of the mean plus the relative accuracy of the offset
+        if not abs(a.r_values[n] - b.r_values[m]) <= 1e-13 * dsc + 2e-15 * abs(a.r_values[n]) + 1e-300:
             return 'replica mean of %s: %r -> %r' % (n, a.r_values[n], b.r_values[m])
     if b.N != a.N:
         return 'N %d -> %d' % (a.N, b.N)
@@ -176,7 +178,7 @@ def same(a, b, nm, pe):
     y.gamma_method()
     # the error analysis groups chains by the text before '|': only comparable when the separator is restored
     if all('|' in n or '|' not in m for n, m in nm.items() if m is not None) and all((n.split('|')[0] == nm[n].split('|')[0]) for n in a.deltas):
-        if not abs(x.dvalue - y.dvalue) <= 1e-9 * max(x.dvalue, 1e-300):
+        if not abs(x.dvalue - y.dvalue) <= 1e-9 * max(x.dvalue, 1e-300) + 2e-15 * abs(a.value):      # second term: rounding units of the samples, see above
             return 'error analysis %r -> %r' % (x.dvalue, y.dvalue)
     return None
 
@@ -186,7 +188,7 @@ MODES = [True, None, False, 1, 'r', 2, 0]
 
 def build(tier, seed):
     cases = [{'kind': 'dobs', 'list': k} for k in ['single', 'same-layout', 'nested', 'interleaved', 'disjoint', 'replica-subsets', 'two-ensembles',
-                                                   'cov', 'cov-only-single', 'cov-only', 'cov-only-first', 'cov-shared', 'count-zeros', 'sample-equals-mean', 'big-strided', 'mixture', 'bare-name', 'constant-on-replica', 'long-ensemble-names', 'tiny-and-huge']]
+                                                   'cov', 'cov-only-single', 'cov-only', 'cov-only-first', 'cov-shared', 'count-zeros', 'sample-equals-mean', 'big-strided', 'mixture', 'bare-name', 'constant-on-replica', 'long-ensemble-names', 'tiny-and-huge', 'big-mean']]
     cases += [{'kind': 'pobs', 'list': k} for k in ['single', 'three', 'replicas', 'count-zeros', 'big', 'bare-name', 'tiny', 'huge', 'derived-replicas']]
     # pobs files whose observables differ in their configuration lists / replica sets: the format has one configuration
     # column per replica, so such a list is either refused on export or comes back faithfully - never re-labelled
